@@ -58,6 +58,39 @@ CLAIMS = {
   'text': 'For memb, mb and bp: (A) the contract of a signal handler doing rcu_read_lock(); rcu_read_unlock() on the interrupted thread - nesting and, inside a critical section, the whole reader word restored, rcu_read_ongoing() unchanged - is proved with further handlers (same contract, --enforce-contract-rec: any nesting depth) and the updater (phase flips, futex armed) running before each of its shared accesses; (B) rcu_read_lock/rcu_read_unlock interrupted before every shared access - including between the plain read of the reader word and the store derived from it - by handlers satisfying that contract keep their postcondition for every reader word.',
   'note': 'Assumed: atomicity of single aligned word accesses (granularity = one C-level access), sequential meaning of the primitives, futex wrapper contract, nesting below the documented limit. Not covered here: handlers inside synchronize_rcu/call_rcu (they only touch the reader word and gp.futex; stated, not proved), bp registration under blocked signals (C15). The handler\'s own section gets the C01 guarantee only as far as C01 is decided.',
  },
+ 'C05': {
+  'category': 'other',
+  'text': 'Linearizability over all histories is not decidable by contracts. Proved instead on chains of unbounded length (loop contracts with variants, pool encoding): every write site of the table is an insert / unlink-of-REMOVED / flag-only mark / single-CAS replace of exactly the shape the lock-free list argument needs (also with a stale iterator), and lookup / next / next_duplicate / first return the first qualifying node under arbitrary REMOVED and BUCKET flags, skipping no live node - so a node that stays on its chain is found; grow publishes size after populate (release), shrink: publish, grace period, unlink, grace period, free.',
+  'note': 'Assumed: sequential primitives, pool layout, tag-helper rewrite, bucket_at/fls contracts. The composition into linearizability and into "never missed while the table is resized concurrently" is the accepted pencil-and-paper argument.',
+  'technique': 'contract-based deductive verification (CBMC loop/function contracts on the real rculfhash.c) of the per-write-site guarantee and traversal contracts',
+ },
+ 'C06': {
+  'category': 'proof',
+  'text': 'On chains of unbounded length: add_unique returns the FIRST live duplicate of the equal-hash run and writes nothing, otherwise inserts at the head of that run (so a forward traversal never meets an older equal key behind a newer one); next_duplicate contract; replace commits with ONE compare-and-swap installing pointer-to-new | REMOVED | REMOVAL_OWNER over an un-REMOVED word with new.next already equal to the successor it takes over - also after a retry caused by a stale iterator; replace of a removed node and del of a removed node fail with -ENOENT without writing; cds_lfht_replace validates hash and key first.',
+  'note': 'Assumed as for C05/C08. The last step from the per-write-site facts (flags only grow, OWNER set atomically with REMOVED by replace, del wins iff OWNER was clear) to "exactly one caller obtains the node" and to "no transient duplicate for concurrent traversals" is not machine-checked. Quick tier includes the 11-minute add_unique proof.',
+ },
+ 'C07': {
+  'category': 'proof',
+  'text': 'On chains of unbounded length: del marks with one release-ordered or, gc_bucket performs exactly one unlink CAS (only of a node observed REMOVED, predecessor keeps its BUCKET bit), the exchange setting REMOVAL_OWNER returns ownership iff OWNER was clear, the pointer part of the victim is frozen and flags only grow, the victim is unreachable from its bucket before del/replace return; a second del/replace gets -ENOENT; shrink frees a bucket order only after its unlink and a later grace period, each order once; destroy/delete_bucket/is_empty succeed iff every node is a bucket and then free every order exactly once.',
+  'note': 'Assumed as for C05/C08. Not decided: that no OTHER thread accesses the node after the grace period (needs C01 and the chain-only reachability rely).',
+ },
+ 'C08': {
+  'category': 'proof',
+  'text': 'Sequential refinement obligations of the real rculfhash code for all hashes (all 2^64, colliding or not) on chains of unbounded length: bit reversal, tag helpers, count orders; bucket_at in bounds and injective for the order / chunk / mmap allocators incl. parameter normalisation; lookup / next / next_duplicate / first / count_nodes (ghost prefix count); add (after the whole equal-hash run), bucket add (before it), unique add; del + gc; replace; destroy iff empty; resize target/termination. Each contract is stated over the abstract chain view with an arbitrary witness position (frame included).',
+  'note': 'Assumed: sequential primitives, pool layout and forall-elimination at access, tag rewrite, fls contract, allocation succeeds. Not under contract yet: cds_lfht_new/create_bucket shape, split-counter accounting, add_replace wrapper loop. The induction over operation sequences that turns the per-operation contracts into equality with a reference multimap is not re-run as one proof. add_unique (11 min) runs in the thorough tier only.',
+ },
+ 'C03': {
+  'category': 'other',
+  'text': 'Per-function obligations of the real call_rcu code (memb TU): _call_rcu = one FIFO enqueue on the chosen helper with the enqueue -> barrier -> futex-test handshake (proved for all queue states 0..2); one helper iteration (bounded batch <= 3) = splice everything, one grace period, each spliced callback exactly once in FIFO order with its own rcu_head and only after a grace period that began after it was queued, never a callback enqueued during that grace period, next pointer read before a callback frees its node; _call_rcu_data_free hands leftovers to the default helper once, in order, behind its own callbacks, and a helper leaves the helper list only with an empty queue inside the critical section that moved them; NULL/default refused.',
+  'note': 'Assumed: synchronize_rcu contract (C01), queue contracts (C10; the real wfcqueue code is included), futex/pthread stubs; the indirect call rhp->func(rhp) is rewritten (must-fire) to a checked direct call; free() logged. Bounded batches. Not decided: schedules, wake-up liveness, helper selection per CPU.',
+  'technique': 'contract-based deductive verification (CBMC) of per-function obligations with ghost event logs; bounded batches',
+ },
+ 'C04': {
+  'category': 'other',
+  'text': 'Per-function obligations of rcu_barrier: exactly one completion marker per listed helper, queued under call_rcu_mutex with its own rcu_head, none when called inside a read-side critical section; sleeps only after futex decrement -> barrier -> non-zero count and with the mutex released; _rcu_barrier_complete decrements once, wakes iff last and the waiter sleeps, frees the work item once and the completion by exactly the last reference put (all count/reference states); plus the C03 obligations it relies on (helpers run callbacks FIFO; a helper being freed stays listed while it has callbacks).',
+  'note': 'List walks bounded to <= 2 helpers. Assumed: _call_rcu contract, futex/pthread stubs. Not decided: termination of the wait, schedules.',
+  'technique': 'contract-based deductive verification (CBMC) of per-function obligations; bounded helper list',
+ },
 }
 for i in range(1, 21):
     k = 'C%02d' % i
